@@ -1251,8 +1251,11 @@ def check(ctx):
     check_classify(ctx)
     check_next_taxon(ctx)
     check_reportable(ctx)
+    rep.rule('D7', 'GenomeMatch / ClassifierResult are plain records: the distance compared with the thresholds and the taxa reported are the values stored (no converter / rewriting hook)')
+    check_plain_records(rep, ctx.model, 'D7', ['gambit.classify.GenomeMatch', 'gambit.classify.ClassifierResult'], 'the genome, distance and taxa the classification computed')
 
 
+from ..records import check_plain_records  # noqa: E402
 from ..variants import V  # noqa: E402
 
 _C = 'src/gambit/classify.py'
@@ -1283,6 +1286,10 @@ _MERGED = ("\tif strict:\n\t\tmatches = find_matches(zip_strict(ref_genomes, dis
 _NS_SPLIT = ("\tif not strict:\n\t\tif closest_match.matched_taxon is None:\n\t\t\treturn ClassifierResult(success=True, predicted_taxon=None, primary_match=None, closest_match=closest_match)\n"
              "\t\treturn ClassifierResult(success=True, predicted_taxon=closest_match.matched_taxon, primary_match=closest_match, closest_match=closest_match)\n")
 VARIANTS = [
+    V('GenomeMatch.distance rewritten by a converter (seeded C03c)', 'B', 'src/gambit/classify.py', "\tdistance: float = attrib()\n", "\tdistance: float = attrib(converter=lambda d: float(str(d)))\n", 'D7'),
+    V('ClassifierResult rewrites predicted_taxon after construction', 'B', 'src/gambit/classify.py', "\terror: Optional[str] = attrib(default=None, repr=False)\n",
+      "\terror: Optional[str] = attrib(default=None, repr=False)\n\n\tdef __attrs_post_init__(self):\n\t\tself.predicted_taxon = self.predicted_taxon if self.success else None\n", 'D7'),
+    V('E: field with a validator and an explicit default', 'E', 'src/gambit/classify.py', "\terror: Optional[str] = attrib(default=None, repr=False)\n", "\terror: Optional[str] = attrib(default=None, repr=False, eq=True)\n"),
     V('threshold test strict <', 'B', _C, "if t.distance_threshold is not None and d <= t.distance_threshold:", "if t.distance_threshold is not None and d < t.distance_threshold:", 'D1'),
     V('matching_taxon skips the taxon itself', 'B', _C, "\tfor t in taxon.ancestors(incself=True):\n\t\tif t.distance_threshold", "\tfor t in taxon.ancestors(incself=False):\n\t\tif t.distance_threshold", 'D1'),
     V('distance taken at index 0', 'B', _C, "\t\tdistance=dists[closest],\n", "\t\tdistance=dists[0],\n", 'D3'),
